@@ -459,8 +459,20 @@ func finishCheck(o checkOpts, results []*funcResult, e *Engine, problems []strin
 	trusted := map[string]bool{}
 	abstr := map[string]int{}
 	inl := map[string]int{}
+	var entryPre []string
 	for _, r := range results {
 		funcs = append(funcs, r.ctx.fn)
+		// every `requires` of a verified function is an assumption at its entry; it is an obligation only at the call
+		// sites that are themselves under contract (and a `@typeinv` one is not even that outside its package)
+		if r.fs != nil {
+			for _, c := range r.fs.Requires {
+				kind := "precondition assumed at the entry of "
+				if hasProp(c.Props, "typeinv") {
+					kind = "type invariant assumed at the entry of (and by callers outside the package of) "
+				}
+				entryPre = append(entryPre, kind+r.ctx.fn+": ["+c.Label+"]")
+			}
+		}
 		for k, v := range r.ctx.opaqueCalls {
 			opaque[r.ctx.fn+" -> "+k] += v
 		}
@@ -535,7 +547,7 @@ func finishCheck(o checkOpts, results []*funcResult, e *Engine, problems []strin
 		"seed":        seed,
 		"level":       "proof",
 		"coverage":    cov,
-		"assumptions": assumptionsList(externs, trusted, opaque, abstr),
+		"assumptions": append(assumptionsList(externs, trusted, opaque, abstr), entryPre...),
 		"wall_s":      time.Since(start).Seconds(),
 		"violations":  len(viols),
 	}
